@@ -221,7 +221,10 @@ def run(ctx):
                        "G in {2, 8, 32} goroutines x K calls behind a start barrier on ONE shared primitive / handle "
                        "(Encrypt/Decrypt/Sign/Verify/ComputeMAC/VerifyMAC/ComputePRF/DeriveKeyset/NewEncryptingWriter/NewDecryptingReader, "
                        "primitive construction from the shared handle, Handle.Primary/Entry/Public/KeysetInfo/String/Len, "
-                       "registry.GetKeyManager); registry histories: random windows of <= 6 concurrent Register/Get/KmsRegister/"
+                       "registry.GetKeyManager); per key type additionally ONE KEY PER GOROUTINE (all keys of one type URL) with concurrent "
+                       "registry.Primitive / registry.PrimitiveFromKeyData / keyset-factory construction + one operation (the registry's "
+                       "singleton key manager is the shared object); shared aead.NewKMSEnvelopeAEAD2 over an in-process KEK (3 DEK "
+                       "templates); registry histories: random windows of <= 6 concurrent Register/Get/KmsRegister/"
                        "KmsGet/KmsClear calls on harness-owned type URLs and clients; all runs under the Go race detector")
     ctx.assumptions += ["schedules are sampled by the Go scheduler (several GOMAXPROCS values / seeds), not enumerated",
                         "the no-data-race clause is decided by the Go race detector attached to the conformance runs, not by TLC",
@@ -309,8 +312,10 @@ MANIFEST = dict(
           "registries as maps with atomic load-or-store / lookup / KMS list operations and start / linearization / end steps. TLC "
           "model-checks both exhaustively on small constants (incl. a shared-scratch counter-model that must violate the property) "
           "and then judges runs of the real code: 74 (quick) / 77 (thorough) shared primitives / handles x G in {2, 8, 32} "
-          "goroutines (83k events quick; 3 runs x 228k thorough with GOMAXPROCS default/4/2: every concurrent return compared with "
-          "the same call executed alone; randomized results inverted alone), and recorded registry histories (150 / 3 x 3000 "
+          "goroutines, plus 66 key types with one key per goroutine constructing primitives of ITS key through registry.Primitive / "
+          "PrimitiveFromKeyData / the keyset factory at the same time, plus shared KMS envelope AEADs (119k events quick; thorough 3 "
+          "runs with GOMAXPROCS default/4/2: every concurrent return compared with the same call executed alone; randomized "
+          "results inverted alone), and recorded registry histories (150 / 3 x 3000 "
           "scenarios of barrier-separated windows of <= 6 concurrent calls, incl. same-instant registration storms) for which TLC "
           "searches linearization points (high-water mark acceptance, StateDeque, -workers 1)."),
     note=("Schedules are sampled by the Go scheduler, not enumerated (primitives contain no synchronisation points a hook could "
